@@ -1,9 +1,11 @@
 package utils
 
 import (
+	"bytes"
 	"context"
 	"crypto/tls"
 	"crypto/x509"
+	"encoding/pem"
 	"time"
 
 	sdk "github.com/cosmos/cosmos-sdk/types"
@@ -64,6 +66,13 @@ func NewServerTLSConfig(ctx context.Context, certs []tls.Certificate, cquery cty
 				}
 				if (len(resp.Certificates) != 1) || !resp.Certificates[0].Certificate.IsState(ctypes.CertificateValid) {
 					return errors.New("tls: attempt to use non-existing or revoked certificate")
+				}
+
+				// 4. the presented certificate must be the very certificate the owner published on chain:
+				// the subject and the serial number alone can be copied into a self-made certificate
+				blk, _ := pem.Decode(resp.Certificates[0].Certificate.Cert)
+				if blk == nil || !bytes.Equal(blk.Bytes, cert.Raw) {
+					return errors.New("tls: certificate does not match the one published on chain")
 				}
 
 				clientCertPool := x509.NewCertPool()
